@@ -59,6 +59,8 @@ type CertSpec struct {
 	ParentKey *rsa.PrivateKey
 	// PKCS1v15 makes the certificate signature SHA256WithRSA rather than PSS.
 	PKCS1v15 bool
+	// SigAlg, when non-zero, is the algorithm the issuer signs the certificate with.
+	SigAlg x509.SignatureAlgorithm
 }
 
 // MakeCert creates a certificate and returns its parsed form.
@@ -74,6 +76,9 @@ func MakeCert(s CertSpec) *x509.Certificate {
 	}
 	if s.PKCS1v15 {
 		tmpl.SignatureAlgorithm = x509.SHA256WithRSA
+	}
+	if s.SigAlg != 0 {
+		tmpl.SignatureAlgorithm = s.SigAlg
 	}
 	if s.IsCA {
 		tmpl.KeyUsage = x509.KeyUsageCertSign
